@@ -268,3 +268,30 @@ def inclusion(c1, c2, ctx, keymap=None):
     if not lib_sat_with_units(c1, x1) or lib_sat_with_units(c2, x2):
         raise HarnessError('inclusion counterexample did not reproduce through the library SAT path')
     return {'x1': [v for v in x1 if x1[v]], 'sequence': decode_model(c1, x1)}
+
+
+def inclusion_linked(c1, c2, link, ctx):
+    """Like inclusion(), with an arbitrary link between the two variable tables:
+    link(z1, z2, table1, table2) -> list of z3 constraints that determine block-2 trial variables up to the intended
+    correspondence.  Returns None (included) / 'inconclusive' / a dict with a model of block 1 that has no
+    corresponding model of block 2 (not replayed here: the caller replays through counts)."""
+    t1, t2 = table_by_names(c1), table_by_names(c2)
+    z1, z2 = Z('p'), Z('q')
+    clo = closure_of(c2)
+    ctx.solver_s += clo.seconds
+    if clo.status == 'conflict':
+        r, m = z3_check(z1.cnf(c1.clauses), ctx)
+        return None if r == 'unsat' else ('inconclusive' if r != 'sat' else {'sequence': None})
+    # "no block-2 assignment linked to x1 is a model": forall x2. link -> not F2.  The link is functional from the
+    # block-2 side only up to copies, so quantify the block-2 trial variables explicitly (they are few).
+    x2 = [z2.var(v) for v in range(1, c2.support + 1)]
+    aux2 = sorted({abs(l) for c in c2.clauses for l in c if abs(l) > c2.support})
+    body = z3.And(link(z1, z2, t1, t2) + z2.cnf(c2.clauses))
+    q = z3.Not(z3.Exists(x2 + [z2.var(a) for a in aux2], body)) if (x2 or aux2) else z3.Not(body)
+    r, m = z3_check(z1.cnf(c1.clauses) + [q], ctx, timeout_ms=180000)
+    if r == 'unsat':
+        return None
+    if r != 'sat':
+        return 'inconclusive'
+    x1 = {v: z3.is_true(m.eval(z1.var(v), model_completion=True)) for v in range(1, c1.support + 1)}
+    return {'x1': [v for v in x1 if x1[v]], 'sequence': decode_model(c1, x1)}
